@@ -125,12 +125,29 @@ func WithToken() OptionFn {
 		p := h.dataDir
 		p = path.Join(p, "token")
 
+		// store writes the token to a temporary file first and renames it into
+		// place, so that a process killed at any moment leaves either no token
+		// file or a complete one
+		store := func() error {
+			tmp := p + ".tmp"
+
+			if err := ioutil.WriteFile(tmp, []byte(uid), 0600); err != nil {
+				return err
+			}
+
+			return os.Rename(tmp, p)
+		}
+
 		if _, err := os.Stat(p); os.IsNotExist(err) {
-			ioutil.WriteFile(p, []byte(uid), 0600)
+			store()
 		} else if err != nil /* other error */ {
 			return err
 		} else if data, err := ioutil.ReadFile(p); err != nil {
 			return err
+		} else if _, err := xid.FromString(string(data)); err != nil {
+			// an empty or truncated token (left behind by an interrupted
+			// first start) is not an identity: replace it
+			store()
 		} else {
 			uid = string(data)
 		}
